@@ -241,3 +241,16 @@ Example C02ta_expected_witness :
   expected_ta 1 RNE [wA; wB] = Exact [([wR], F_INX)] /\ expected_ta 0 RNE [wA; wB; wZ] = Exact [([wR], F_INX)] /\
   expected_ta 2 RNE [wA; wB] = Exact [].
 Proof. vm_compute. repeat split; reflexivity. Qed.
+
+(* ---------- the recorded finding KF_TA_MINNORMAL (class 2; DESIGN section 18) ----------
+   What the judge of the secondary configuration uses is [expected_ta_kf]: it is [expected_ta] except on cases whose demanded result is
+   the smallest normal number +-10^33 * 10^-6176, inexact; there the DEMAND (required) is still [expected_ta]'s answer and the recorded
+   deviation is the same datum with the underflow bit flipped.  Nothing else is tolerated. *)
+Theorem C02ta_known_class_is_narrow : forall name md args,
+  expect_list (expected_ta_kf name md args) = expect_list (expected_ta name md args) /\
+  (forall k req rcd, expected_ta_kf name md args = Known k req rcd ->
+     k = KF_TA_MINNORMAL /\ req = expected_ta name md args /\
+     exists l, expected_ta name md args = Exact l /\ is_min_normal_inexact l = true /\ rcd = Exact (flip_underflow l)) /\
+  (forall l, expected_ta name md args = Exact l -> is_min_normal_inexact l = false -> expected_ta_kf name md args = Exact l).
+Proof. exact expected_ta_kf_required. Qed.
+Print Assumptions C02ta_known_class_is_narrow.
